@@ -67,6 +67,26 @@ func foptString(fo interface{}) string {
 
 const recFormat = formats.Format("application/x-verif-recording+json;version=1.0")
 
+// a format identifier without a version suffix is a format identifier like any other
+const recFormatBare = formats.Format("application/x-verif-recording+json")
+
+// a driver that accepts the lookup and then fails (in Serialize or in Render)
+const recFormatFailSer = formats.Format("application/x-verif-failing-serialize+json;version=1.0")
+const recFormatFailRen = formats.Format("application/x-verif-failing-render+json;version=1.0")
+
+type failDriver struct{ inRender bool }
+
+func (d *failDriver) Serialize(_ *sbom.Document, _ *native.SerializeOptions, _ interface{}) (interface{}, error) {
+	if !d.inRender {
+		return nil, fmt.Errorf("verif: serialize refused")
+	}
+	return "native", nil
+}
+
+func (d *failDriver) Render(_ interface{}, _ io.Writer, _ *native.RenderOptions, _ interface{}) error {
+	return fmt.Errorf("verif: render refused")
+}
+
 // format options are looked up under the driver's type name: the instance-level option uses the same key
 var foptKey = fmt.Sprintf("%T", &recDriver{})
 
@@ -158,8 +178,14 @@ func configRun(args []string) error {
 	rec := &recDriver{}
 	reader.RegisterUnserializer(recFormat, rec)
 	writer.RegisterSerializer(recFormat, rec)
+	writer.RegisterSerializer(recFormatBare, rec)
+	writer.RegisterSerializer(recFormatFailSer, &failDriver{})
+	writer.RegisterSerializer(recFormatFailRen, &failDriver{inRender: true})
 	defer reader.UnregisterUnserializer(recFormat)
 	defer writer.UnregisterSerializer(recFormat)
+	defer writer.UnregisterSerializer(recFormatBare)
+	defer writer.UnregisterSerializer(recFormatFailSer)
+	defer writer.UnregisterSerializer(recFormatFailRen)
 
 	var ws []*writer.Writer
 	var rs []*reader.Reader
@@ -314,6 +340,14 @@ func configRun(args []string) error {
 				return
 			}
 			o := &writer.Options{Format: recFormat}
+			switch str(ev, "variant") {
+			case "bare": // the per-call format has no ";version=" part
+				o.Format = recFormatBare
+			case "fail-serialize": // the call fails inside the driver: the instance is still what it was afterwards
+				o.Format = recFormatFailSer
+			case "fail-render":
+				o.Format = recFormatFailRen
+			}
 			if v := str(ev, "callfopt"); v != "" {
 				o.SetFormatOptions(rec, v)
 			}
@@ -324,7 +358,13 @@ func configRun(args []string) error {
 			}
 			rec.got = nil
 			var buf bytes.Buffer
-			if err := ws[i].WriteStreamWithOptions(tinyDoc(), nopCloser{&buf}, o); err != nil || rec.got == nil {
+			if err := ws[i].WriteStreamWithOptions(tinyDoc(), nopCloser{&buf}, o); strings.HasPrefix(str(ev, "variant"), "fail-") {
+				// only the persistence clauses apply (the instances are observed after every call)
+				ev["gotfopt"], ev["gotrenderfopt"], ev["gotindent"] = "failed", "failed", "failed"
+				if err == nil {
+					ev["gotfopt"] = "no-error"
+				}
+			} else if err != nil || rec.got == nil {
 				ev["gotfopt"], ev["gotrenderfopt"], ev["gotindent"] = "error", "error", "error"
 			} else {
 				ev["gotfopt"], ev["gotrenderfopt"], ev["gotindent"] = rec.got["fopt"], rec.got["renderfopt"], rec.got["indent"]
@@ -399,7 +439,7 @@ func configRun(args []string) error {
 				exec(map[string]any{"op": "ParseCall", "sid": sid, "i": 1 + r.Intn(nr), "callfopt": pick(r, []string{"", "c1", "c2"})})
 			case k == 11 && nw > 0:
 				exec(map[string]any{"op": "WriteCall", "sid": sid, "i": 1 + r.Intn(nw), "callfopt": pick(r, []string{"", "c1", "c2"}),
-					"callindent": pick(r, []string{"", "3"})})
+					"callindent": pick(r, []string{"", "3"}), "variant": pick(r, []string{"", "", "bare", "fail-serialize", "fail-render"})})
 			case k >= 10:
 				o, order := subset(rvals)
 				exec(map[string]any{"op": "NewReader", "sid": sid, "opts": o, "order": order})
